@@ -22,7 +22,9 @@ from typing import Any, Callable, Iterable
 VERIF = Path(__file__).resolve().parent.parent  # location independent: works from any worktree of /verif
 COQ = VERIF / "coq"
 BUILD = VERIF / "build"
-REPO = Path("/repo")
+# The registered commands always run against /repo.  VERIF_REPO_ROOT lets the developer point the whole
+# harness at another checkout (a scratch worktree with a seeded change) without touching /repo.
+REPO = Path(os.environ.get("VERIF_REPO_ROOT", "/repo"))
 PY = "/venv/bin/python"
 ALLOWED_AXIOMS: set[str] = set()  # the development is meant to be closed; nothing allow-listed
 
